@@ -147,6 +147,8 @@ class Flow:
         self.inlined: dict[int, FuncInfo] = {}
         # scope in which an attribute leaf was evaluated (its receiver may be a parameter of a helper)
         self.attr_scope: dict[int, Scope] = {}
+        # attribute read inside a helper that was looked through by `expand`: id(attribute) -> what the caller handed in
+        self.attr_origin: dict[int, Leaf] = {}
 
     # -- resolution ------------------------------------------------------
     def resolve(self, d: str | None, sc: "Scope | None" = None) -> str | None:
@@ -348,7 +350,28 @@ class Flow:
                 return self._lv(arg, asc, seen)
             return self._defs(e.id, frozenset(), e, sc, seen)
         defs = sc.rd.reaching(node, e.id)
+        w = self._bound_by_enclosing_test(e)
+        if w is not None and not any(d.kind == "walrus" and d.value is w.value for d in defs):
+            # `f(h) if (h := x) else ""` / `(h := x) and f(h)`: the test is evaluated before the arm the name stands in,
+            # although it stands after it in the text (and in the same statement, so no definition "reaches" it)
+            return self._lv(w.value, sc, seen)
         return self._defs(e.id, defs, e, sc, seen) + self._grown(e.id, defs, node, sc, seen)
+
+    @staticmethod
+    def _bound_by_enclosing_test(e: ast.Name) -> ast.NamedExpr | None:
+        cur: ast.AST = e
+        par = getattr(cur, "_parent", None)
+        while par is not None and not isinstance(par, (ast.stmt, ast.Lambda, ast.FunctionDef, ast.AsyncFunctionDef)):
+            tests: list[ast.AST] = []
+            if isinstance(par, ast.IfExp) and cur is not par.test:
+                tests = [par.test]
+            elif isinstance(par, ast.BoolOp) and cur in par.values:
+                tests = par.values[: par.values.index(cur)]
+            hits = [w for t0 in tests for w in ast.walk(t0) if isinstance(w, ast.NamedExpr) and isinstance(w.target, ast.Name) and w.target.id == e.id]
+            if hits:
+                return hits[-1]
+            cur, par = par, getattr(par, "_parent", None)
+        return None
 
     def _grown(self, name: str, defs: t.Iterable[Def], node: t.Any, sc: Scope, seen: frozenset[int]) -> list[Leaf]:
         """what was put *into* the object bound to ``name`` after it was created: a list / set / dict / bytearray
@@ -949,6 +972,11 @@ def _is_env_key(k: str) -> bool:
     return k in TEXT_KEYS or k in ("REQUEST_URI", "RAW_URI") or k.startswith("HTTP_")
 
 
+def _only_param(inner: Flow, attr: ast.Attribute, param: str) -> bool:
+    src = inner.leaves(attr.value, inner.attr_scope.get(id(attr)))
+    return bool(src) and all(x.kind == "param" and x.key == param and not x.ops for x in src)
+
+
 def expand(flow: Flow, leaf: Leaf, keep: t.Callable[[str], bool] | None = None, depth: int = 0) -> list[Leaf]:
     """replace a recorded call of a module-level *function* of the package (``helper(x)``) by what the function
     does to its first parameter ("helper extracted" must not change the verdict). Calls for which ``keep(fq)``
@@ -967,6 +995,11 @@ def expand(flow: Flow, leaf: Leaf, keep: t.Callable[[str], bool] | None = None, 
             for il in inner.leaves(r.value) if r.value is not None else []:
                 if il.kind == "param" and il.key == fi.params[0]:
                     nl = Leaf(leaf.kind, leaf.node, leaf.ops[:i] + il.ops + leaf.ops[i + 1 :], leaf.key, leaf.tags | il.tags)
+                elif i == 0 and il.kind == "attr" and isinstance(il.node, ast.Attribute) and isinstance(il.node.value, ast.Name) and _only_param(inner, il.node, fi.params[0]):
+                    # an attribute of the helper's first parameter (`helper(parts)` reading `parts.hostname`): an
+                    # attribute of whatever the caller handed in
+                    flow.attr_origin[id(il.node)] = Leaf(leaf.kind, leaf.node, (), leaf.key, leaf.tags)
+                    nl = Leaf("attr", il.node, il.ops + leaf.ops[1:], il.key, il.tags)
                 else:
                     nl = Leaf(il.kind, il.node, il.ops + leaf.ops[i + 1 :], il.key, il.tags)
                 out += expand(flow, nl, keep, depth + 1)
@@ -1407,7 +1440,12 @@ class Concrete:
                     h = self.handler_for(st, r, m, env)
                     if h.name is not None:
                         env[h.name] = Opaque(f"the caught {r.what}")
-                    self.block(h.body, env, m)
+                    try:
+                        self.block(h.body, env, m)
+                    except ConcreteRaise as r2:
+                        if r2.what == "re-raise":  # a bare `raise` in the handler: the caught exception goes on
+                            raise ConcreteRaise(r.what, r2.node)
+                        raise
                 else:
                     self.block(st.orelse, env, m)
             finally:
